@@ -12,5 +12,10 @@ static inline double verif_log(double x) {
   if (x == VERIF_PINF) return VERIF_PINF;
   return __CPROVER_uninterpreted_log(x);
 }
+double __CPROVER_uninterpreted_fmul(double, double);
+double __CPROVER_uninterpreted_fdiv(double, double);
+/* arithmetic abstraction used where a unit says so: any functional interpretation, in particular IEEE arithmetic */
+static inline double verif_uf_mul(double a, double b) { return __CPROVER_uninterpreted_fmul(a, b); }
+static inline double verif_uf_div(double a, double b) { return __CPROVER_uninterpreted_fdiv(a, b); }
 static inline double verif_fabs(double x) { return __CPROVER_fabs(x); }
 #endif
